@@ -146,13 +146,13 @@ func ParseSenc(payload []byte, ivSize int, piff bool) (*Senc, error) {
 
 // Saiz is a parsed SampleAuxiliaryInformationSizesBox.
 type Saiz struct {
-	Version      byte
-	Flags        uint32
-	AuxType      string
-	AuxParam     uint32
-	DefaultSize  byte
-	Count        uint32
-	Sizes        []byte
+	Version     byte
+	Flags       uint32
+	AuxType     string
+	AuxParam    uint32
+	DefaultSize byte
+	Count       uint32
+	Sizes       []byte
 }
 
 // Size returns the auxiliary information size of sample i (0 beyond Count).
